@@ -100,6 +100,11 @@ func (it *Iterator) Seek(key []byte) bool {
 	if !it.valid {
 		it.moveToRightMostKey()
 	}
+	// seek may stop on the greatest key smaller than the given key (a leaf on the key's path,
+	// the right edge of a node, or past the end): step to the smallest key >= key.
+	if it.valid && bytes.Compare(it.Key(), key) < 0 {
+		it.Next()
+	}
 	return fp
 }
 
